@@ -34,15 +34,58 @@ def main(argv):
         return 0 if ok else 1
     from pyvc.unit import replay_native
     unit = load_unit(rec['unit'])
+    unit.shard = rec.get('shard', 0)
     failures, outcome = replay_native(unit, rec['values'])
     if failures is None:
         print(json.dumps({"reproduced": False, "detail": outcome}))
         return 0
     want = rec.get('obligation')
     hit = [f for f in failures if want is None or f == want]
+    note = None
+    if not hit:
+        # the model leaned on an uninterpreted function: search around it (single-byte perturbations)
+        found = perturb_search(unit, rec['values'], want)
+        if found is not None:
+            vals, failures, outcome = found
+            hit = [f for f in failures if want is None or f == want]
+            rec['values_from_solver'] = rec['values']
+            rec['values'] = vals
+            note = "input found by single-byte perturbation of the solver's model (bounded search)"
+            with open(path, 'w') as f:
+                json.dump(rec, f, indent=1, default=str)
     print(json.dumps({"reproduced": bool(hit), "failures": failures, "outcome": outcome,
-                      "optimize": sys.flags.optimize}))
+                      "optimize": sys.flags.optimize, "note": note}))
     return 1 if hit else 0
+
+
+def perturb_search(unit, values, want, budget=4000):
+    from pyvc.unit import replay_native
+    n = 0
+    for name, v in values.items():
+        if not isinstance(v, str):
+            continue
+        try:
+            b = bytearray.fromhex(v)
+        except ValueError:
+            continue
+        for i in range(len(b)):
+            for nv in (0x00, 0x20, 0xFF, 0x41, 0x0A, 0x22):
+                if b[i] == nv:
+                    continue
+                n += 1
+                if n > budget:
+                    return None
+                b2 = bytearray(b)
+                b2[i] = nv
+                vals = dict(values)
+                vals[name] = bytes(b2).hex()
+                try:
+                    failures, outcome = replay_native(unit, vals)
+                except AssertionError:
+                    continue
+                if failures and (want is None or want in failures):
+                    return vals, failures, outcome
+    return None
 
 
 if __name__ == '__main__':
